@@ -28,6 +28,23 @@ Proof.
   intros H. specialize (H 3 w_list1 w_list2 eq_refl). vm_compute in H. discriminate.
 Qed.
 
+(* Callable[[*, k: int, l: str], int] vs the same with l declared before k *)
+Definition w_call1 := VNode (TCallable 0 [107%N; 108%N]) [w_int; w_str; w_int].
+Definition w_call2 := VNode (TCallable 0 [108%N; 107%N]) [w_str; w_int; w_int].
+
+Lemma eq_hash_refuted_kwonly_order : ~ eq_implies_hash_eq_full_statement.
+Proof.
+  intros H. specialize (H 3 w_call1 w_call2 eq_refl). vm_compute in H. discriminate.
+Qed.
+
+(* TypedDicts whose keys are declared in a different order are == and hash equal *)
+Definition w_td_xy := VNode (TTypedDict [(120%N, (true, false)); (121%N, (true, false))] false false) [VUnion [w_int; w_str]; w_int; w_str].
+Definition w_td_yx := VNode (TTypedDict [(121%N, (true, false)); (120%N, (true, false))] false false) [VUnion [w_str; w_int]; w_str; w_int].
+
+Lemma typeddict_key_order_consistent :
+  veq w_td_xy w_td_yx = true /\ heq w_td_xy w_td_yx = true /\ unite [w_td_xy; w_td_yx] = w_td_xy.
+Proof. vm_compute. repeat split; reflexivity. Qed.
+
 (* consequence: equal alternatives are not merged *)
 Lemma unhashable_literal_not_merged : unite [w_list1; w_list2] = VUnion [w_list1; w_list2] /\ veq w_list1 w_list2 = true.
 Proof. split; vm_compute; reflexivity. Qed.
